@@ -227,7 +227,7 @@ def decode_path(d):
 
 
 def decode_shape(d):
-    return {"kind": "shape", "shape": c02.shape_params(d), "A": gen.matrix(d), "stroke": stroke_choice(d), "grown": d.chance(1, 4)}
+    return {"kind": "shape", "shape": c02.shape_params(d), "A": gen.matrix(d), "stroke": stroke_choice(d), "grown": (1 + d.below(16)) if d.chance(1, 4) else 0}
 
 
 def decode_group(d):
@@ -420,8 +420,11 @@ def check_shape(case):
         sized = dict((k_, getattr(shape, k_)) for k_ in (("width", "height") if kind in ("rect", "rrect") else ("rx", "ry")))
         for k_ in sized:
             setattr(shape, k_, 0.0)
-        for tr_ in (False, True):
-            for ws_ in (False, True):
+        queries = [(False, False), (False, True), (True, False), (True, True)]
+        r_ = int(case["grown"])  # the order (and number) of the queries is part of the case
+        queries = (queries[r_ % 4:] + queries[: r_ % 4])[: 1 + (r_ // 4) % 4]
+        for tr_, ws_ in queries:
+            if True:
                 empty = shape.bbox(transformed=tr_, with_stroke=ws_)
                 if empty is not None:
                     return o.violation("shape:%s:empty-has-box" % kind, "%s with zero size has bbox %r" % (kind, empty))
